@@ -2,9 +2,10 @@
    for the correspondence runner.  Directives used: those of ExtrOcamlBasic only (bool, option, unit,
    list, prod, sumbool, sumor, andb, orb).  nat, positive, N stay Coq's inductive types. *)
 From Coq Require Import Extraction ExtrOcamlBasic List NArith.
-From GmsmVerif Require Import Lib.Outcome SM3.SM3Spec SM3.HMACSpec SM3.SM3Model SM3.SM3Fast.
+From GmsmVerif Require Import Lib.Outcome SM3.SM3Spec SM3.HMACSpec SM3.SM3Model SM3.SM3Fast SM3.HMACMarshal SM3.GmtlsOps.
 Extraction Language OCaml.
 Extraction "sm3_model.ml"
   sm3 sm3_iv sm3_cf sm3_pad hmac_sm3 pbkdf2_hmac_sm3 sm3_fast hmac_sm3_fast
   init step run mkSM3 s_digest s_length s_unhandleMsg Write Sum Reset Sm3Sum
-  hmac_New hmac_step hmac_oneshot pbkdf2_Key.
+  hmac_New hmac_step hmac_oneshot pbkdf2_Key
+  sm3_marshalable hmacM_New hmacM_step prf12_sm3_ops macSM3 tls10MAC_run.
